@@ -22,5 +22,5 @@ def main(tier):
                 "data": "unique tag, symbolic charge, symbolic bond types, <= 1 symbolic mass label", "seeds": "0.25, 0.5 and the boundary 0.0", "inputs": "graphs whose numbering equals their listing order, and graphs with two adjacent labels exchanged (nx.relabel_nodes)"},
         assumptions=STD_ASSUME + ["RNG contract: random.seed(s) followed by the same calls yields the same shuffles; 'same seed, same result' is discharged through this contract (seed is called with the given seed before the first shuffle and nothing else of `random` is used), not by executing the Mersenne Twister"],
         stubs=["tucan.graph_utils.random replaced by a stub whose shuffle applies a solver-chosen permutation and whose seed records its argument"],
-        outside=["the Mersenne Twister itself", "retry depth beyond the cut", "n > 5"],
+        outside=["the Mersenne Twister itself (executed for 16 seeds per path in a concrete leg: same seed under two different states of the global generator must give the same graph)", "retry depth beyond the cut", "n > 5"],
         explanation="permute_molecule(G, seed) with the shuffle outcome symbolic; obligations: same label set, tag->label bijection that is an isomorphism carrying all atom and bond attribute terms, atoms listed in label order, argument unchanged, seed-before-shuffle, changed edge set when |E| >= 2 and not complete")
